@@ -10,6 +10,7 @@ CONSTANTS
   BugEnds = {TRUE}
   CRanges = {0}
   Rots <- Rots_q
+  Scales <- Scales_q
 INVARIANT TypeOK
 INVARIANT CompleteAsIs
 CHECK_DEADLOCK FALSE
